@@ -14,6 +14,11 @@ class TV:
         return "%s:%s" % (self.prop, self.code)
 
 
+def unarg(s):
+    """Argument field of the invocation log: '-' no argument, '=' the empty text, else hex."""
+    return None if s == "-" else ("" if s == "=" else unhex(s))
+
+
 def unhex(s):
     return "" if s == "-" else bytes.fromhex(s).decode("utf-8")
 
@@ -26,7 +31,7 @@ def parse_log(log):
         if p[0] == "args_eval":
             out["args_eval"][int(p[1])] = out["args_eval"].get(int(p[1]), 0) + 1
         elif p[0] == "enter":
-            out["enters"].append({"bid": int(p[1]), "arg": None if p[2] == "-" else unhex(p[2]), "ty": None if p[3] == "-" else unhex(p[3]),
+            out["enters"].append({"bid": int(p[1]), "arg": unarg(p[2]), "ty": None if p[3] == "-" else unhex(p[3]),
                                   "const": None if p[4] == "-" else unhex(p[4])})
         elif p[0] == "run":
             calls = {}
@@ -34,7 +39,7 @@ def parse_log(log):
                 for kv in p[5].split(","):
                     k, v = kv.split(":")
                     calls[int(k)] = int(v)
-            out["runs"].append({"bid": int(p[1]), "arg": None if p[2] == "-" else unhex(p[2]), "ty": None if p[3] == "-" else unhex(p[3]),
+            out["runs"].append({"bid": int(p[1]), "arg": unarg(p[2]), "ty": None if p[3] == "-" else unhex(p[3]),
                                 "const": None if p[4] == "-" else unhex(p[4]), "calls": calls})
     return out
 
@@ -299,6 +304,7 @@ def judge(sp, cfg, res, want=None):
                 if cells[:4] != exp:
                     add("C20", "time_cells", "%s: time cells %s, expected %s" % (where, cells[:4], exp))
                     add("C05", "time_cells_e2e", "%s: printed %s, exact order statistics %s" % (where, cells[:4], exp))
+                    add("C18", "duration_cell_e2e", "%s: time cells %s are not the documented renderings %s of the exact figures" % (where, cells[:4], exp))
                 # continuation rows
                 ctrs = TM.effective_counters(ex)
                 rows = [[c.strip() for c in row] for row in p.rows]
